@@ -60,6 +60,7 @@ func analyse(p *Prop, repo, tier string, overlay map[string][]byte) (res runResu
 	}
 	c := &Ctx{Prop: p, Tier: tier, Fset: l.Fset, Prog: l.Prog, Pkgs: l.Pkgs, SSA: l.SSA,
 		keys: map[string]int{}, Funcs: map[*ssa.Function]bool{}, doms: map[*ssa.Function]*struct{}{}}
+	c.Repo, c.Overlay = repo, overlay
 	res.Pkgs = l.N
 	func() {
 		defer func() {
